@@ -177,7 +177,7 @@ def triangular_affine(ctx):
             ctx.oblige(f"C11/TriangularAffine[{tag}].__init__/post/reproduces_triangle_of_arr", T0.f(r_, c_) == z3.If(keep, A0(r_, c_), 0), rng + [z3.substitute(h, (d_, r_)) for h in p0.cond + pu0[0].cond], props, fn=fq, replay=rp,
                        rounds=3, extra_terms=[exp(A0(r_, r_)), exp(T0.f(r_, r_))], note="path conditions hold for every index d: instantiated at the row r")
         else:
-            ctx.oblige(f"C11/TriangularAffine[{tag}].__init__/struct/unwrap_straight_line", False, [], props, kind="struct", fn=fq)
+            ctx.oblige(f"C11/TriangularAffine[{tag}].__init__/struct/unwrap_straight_line", False, [], props, kind="applicability", fn=fq)
         # ---- arbitrary training, then the real unwrap
         trained, nleaves = havoc_all(o, f"trained_{tag}")
         ctx.oblige(f"C09/TriangularAffine[{tag}]/struct/trainable_leaves_found", nleaves >= 3, [], props, kind="struct", fn=fq, note="loc, the raw diagonal and the raw matrix")
@@ -188,7 +188,7 @@ def triangular_affine(ctx):
         u = pus[0].value
         T = u.triangular
         okm = isinstance(T, MV)
-        ctx.oblige(f"C09/TriangularAffine[{tag}]/struct/unwrapped_matrix", okm, [], props, kind="struct", fn=fq)
+        ctx.oblige(f"C09/TriangularAffine[{tag}]/struct/unwrapped_matrix", okm, [], props, kind="applicability", fn=fq)
         if not okm:
             continue
         H = rng + pus[0].cond
@@ -212,7 +212,7 @@ def triangular_affine(ctx):
         # documented function: A x + b with the (unwrapped) triangular matrix
         mvs = [(n_, t) for n_, t in la.mv.items() if t[1].eq(to_real(x.e))]
         okf = len(mvs) == 1 and la.same_matrix(mvs[0][1][0], T)
-        ctx.oblige(f"C07/TriangularAffine[{tag}].transform/struct/is_matvec_of_triangular", okf, [], props, kind="struct", fn=f"{Q}.transform")
+        ctx.oblige(f"C07/TriangularAffine[{tag}].transform/struct/is_matvec_of_triangular", okf, [], props, kind="applicability", fn=f"{Q}.transform")
         if not okf:
             continue
         Ax = mvs[0][1][2](d_)
@@ -328,7 +328,7 @@ def multivariate_normal(ctx):
     products.clear()
     pc = it.explore(lambda: o.covariance)
     okc = len(pc) == 1 and pc[0].outcome == "return" and isinstance(pc[0].value, tuple) and pc[0].value[0] == "matrix_product"
-    ctx.oblige("C11/MultivariateNormal.covariance/struct/is_a_matrix_product", bool(okc), [], props, kind="struct", fn=MQ + ".covariance")
+    ctx.oblige("C11/MultivariateNormal.covariance/struct/is_a_matrix_product", bool(okc), [], props, kind="applicability", fn=MQ + ".covariance")
     if okc:
         _tag, A, B = pc[0].value
         H = rng + t3 + [z3.substitute(h, (d_, r_)) for h in c0 + pc[0].cond] + c0 + pc[0].cond
